@@ -3,12 +3,23 @@ use super::*;
 use crate::shim::SCell;
 
 fn voter_filter(npeers: usize, ntargets: usize) {
+    voter_filter_m(npeers, ntargets, false)
+}
+/// `concrete_membership`: peers 2,3,4 are exactly the replication targets, all Followers (ids and roles concrete), so the
+/// number of match indexes handed over is concrete; the match indexes themselves stay symbolic.
+fn voter_filter_m(npeers: usize, ntargets: usize, concrete_membership: bool) {
     let ids: [u32; 4] = kani::any();
     let vals: [u64; 4] = kani::any();
     // distinct peer ids (keys of a map)
     kani::assume(ids[0] != ids[1] && ids[0] != ids[2] && ids[0] != ids[3] && ids[1] != ids[2] && ids[1] != ids[3] && ids[2] != ids[3]);
-    let tid: [u32; 3] = kani::any();
-    let trole: [i32; 3] = kani::any();
+    let mut ids = ids;
+    let mut tid: [u32; 3] = kani::any();
+    let mut trole: [i32; 3] = kani::any();
+    if concrete_membership {
+        ids = [2, 3, 4, 5];
+        tid = [2, 3, 4];
+        trole = [1, 1, 1];
+    }
     kani::assume(tid[0] != tid[1] && tid[0] != tid[2] && tid[1] != tid[2]);
     let mut targets = crate::h_vec3(ntargets, |i| NodeMeta { id: tid[i], role: trole[i] });
     let commit: u64 = kani::any();
@@ -46,7 +57,7 @@ fn voter_filter(npeers: usize, ntargets: usize) {
         }
         i += 1;
     }
-    kani::cover!(en < npeers, "some_peer_is_excluded");
+    kani::cover!(en < npeers || concrete_membership, "some_peer_is_excluded_or_membership_is_concrete");
     kani::cover!(en == npeers.min(ntargets) && en > 0, "as_many_peers_counted_as_possible");
     assert!(*log.n.r() == en, "C09:learner_or_removed_peer_counted_toward_commit_quorum");
     let rec = *log.ids.r();
@@ -79,4 +90,14 @@ pub fn c09_voter_filter_3_peers_2_targets() {
 #[kani::unwind(2)]
 pub fn c09_voter_filter_3_peers_3_targets() {
     voter_filter(3, 3)
+}
+#[kani::proof]
+#[kani::unwind(2)]
+pub fn c09_voter_filter_4_peers_3_targets() {
+    voter_filter(4, 3)
+}
+#[kani::proof]
+#[kani::unwind(2)]
+pub fn c09_voter_filter_all_voters_3_peers() {
+    voter_filter_m(3, 3, true)
 }
